@@ -21,6 +21,7 @@ STYLES = {
     "late_illegal": ["legal"] * 12 + ["illegal"],
     # 'solve' asks the reference model for a constructive move (model.solve_action); it falls back to
     # 'legal' for environments whose model has no solver
+    "survive_only": ["survive"],
     "solve": ["solve"],
     "solveish": ["solve"] * 8 + ["legal", "raw"],
 }
